@@ -122,3 +122,11 @@ def _m_mgs_mult(case, v, args):
     return (v.get("kind") == "lower_bound_above_optimum" and case.get("cls") == "MinFlowDecompCycles"
             and case.get("hand_mfd") == "cyc:selfloops_multiplicity_37719" and ("mingenset" in (v.get("opt") or "") or "mgs" in (v.get("opt") or ""))
             and v.get("lower_bound_used") == 3)
+
+
+@matcher("antichain_total_weight_above_2_pow_32")
+def _m_antichain_big(case, v, args):
+    """AC-2POW32: stDAG.compute_max_edge_antichain reduces to a min-cost flow whose arc capacities and source supply are the constant
+    graphutils.bigNumber = 2^32; a weight function whose total exceeds it makes the flow infeasible, the helper returns (None, None)
+    and the query answers None / raises TypeError. Only antichain verdicts on weight functions with total > 2^32 match."""
+    return v.get("kind") in ("antichain_exception", "antichain_wrong") and v.get("total_weight", 0) > 2 ** 32
